@@ -82,9 +82,11 @@ PROPS = {
         'stages': quick_thorough(
             [{'name': 'sweep', 'sub': 'c14mut', 'n': 0, 'args': ['sweep'], 'compat': lambda c, a, b: a.strip() == '3' and b.strip() != '2', 'no_escalate': True},
              {'name': 'mutated', 'sub': 'c14mut', 'n': 800, 'compat': lambda c, a, b: a.strip() == '3' and b.strip() != '2'},
+             {'name': 'synth', 'sub': 'c14synth', 'n': 0, 'no_escalate': True, 'compat': lambda c, a, b: a.strip() == '3' and b.strip() != '2'},
              {'name': 'files', 'sub': 'c14files', 'n': 120, 'no_escalate': True}],
             [{'name': 'sweep', 'sub': 'c14mut', 'n': 0, 'args': ['sweep'], 'compat': lambda c, a, b: a.strip() == '3' and b.strip() != '2', 'no_escalate': True},
              {'name': 'mutated', 'sub': 'c14mut', 'n': 60000, 'compat': lambda c, a, b: a.strip() == '3' and b.strip() != '2'},
+             {'name': 'synth', 'sub': 'c14synth', 'n': 0, 'no_escalate': True, 'compat': lambda c, a, b: a.strip() == '3' and b.strip() != '2'},
              {'name': 'files', 'sub': 'c14files', 'n': 100000, 'no_escalate': True, 'timeout': 3000}]),
         'assumptions': [
             "goblin 0.9 header/program-header/section-header/note primitives are mirrored by the model, not verified",
@@ -147,6 +149,15 @@ PROPS = {
         'assumptions': ["JSON well-formedness comes from serde_json (observed by parsing, not proved)",
                         "streams owned by a failed step: thread names (ThreadName), CPU details of the system-info stream (CpuInfoFileOpen); every other stream must equal the no-fault dump of the same target"],
         'partial': 'vanished threads (exit between enumeration and attach) are modelled (AGone) but exercised live by the C03 stage; unreadable /proc files need a mount namespace and are not induced',
+    },
+    'C03': {
+        'abi_module': 'AbiC03',
+        'stages': quick_thorough(
+            [{'name': 'release', 'sub': 'c03', 'n': 8, 'timeout': 600}],
+            [{'name': 'release', 'sub': 'c03', 'n': 60, 'timeout': 3000}]),
+        'assumptions': ["kernel semantics of ptrace attach/detach, group-stop (SIGSTOP/SIGCONT) and signal queueing are the assumed kernel model of Ptrace.v",
+                        "observables: /proc/<pid>/task/<tid>/status State and TracerPid, spin and signal counters in a page shared with the target"],
+        'partial': 'the theorem covers the dumper bookkeeping over the abstract kernel; real signal/attach races and kernel stop semantics are observed, not proved; panics unwinding through Drop are covered by the model (AfterSuspend) but not induced live',
     },
     'C13': {
         'abi_module': 'AbiC13',
